@@ -414,11 +414,13 @@ func rulePanics(w *World, r *Report, rule string) {
 // trace that a retry could observe.)
 func ruleResolveWritesNothing(w *World, r *Report, rule string) {
 	ro := resolveRoles(w)
-	for _, fi := range []*FuncInfo{ro.resolve} {
-		r.Analysed(fi)
-		info := fi.Pkg.TypesInfo
-		n := 0
-		ast.Inspect(fi.Decl.Body, func(x ast.Node) bool {
+	fi := ro.resolve
+	r.Analysed(fi)
+	storing := storingFuncs(w, ro)
+	stop := func(h *FuncInfo) bool { return ro.isCreate(h.Obj) || storing[h.Obj] }
+	// what a node records in / retires from the scope's or provider's state
+	effects := func(info *types.Info, n ast.Node, deferred bool) (ins, del []string) {
+		inspectNoLit(n, func(x ast.Node) bool {
 			switch s := x.(type) {
 			case *ast.AssignStmt:
 				for _, l := range s.Lhs {
@@ -427,21 +429,27 @@ func ruleResolveWritesNothing(w *World, r *Report, rule string) {
 						target = unparen(ix.X)
 					}
 					if fv := fieldOf(info, target); fv != nil {
-						o := ownerOfField(w, fv)
-						if o == "scope" || o == "provider" {
-							n++
-							r.Fail(rule, fmt.Sprintf("%s#store:%s.%s/%d", fi.Name(), o, fv.Name(), n), s.Pos(), "resolve writes %s.%s itself: state recorded before or regardless of the constructor's success makes a failed resolution observable to a retry", o, fv.Name())
+						if o := ownerOfField(w, fv); o == "scope" || o == "provider" {
+							ins = append(ins, w.canonField(fv))
 						}
 					}
 				}
 			case *ast.CallExpr:
+				if id, ok := unparen(s.Fun).(*ast.Ident); ok && id.Name == "delete" && len(s.Args) == 2 {
+					if fv := fieldOf(info, s.Args[0]); fv != nil {
+						del = append(del, w.canonField(fv))
+					}
+				}
 				if cal := callee(info, s); cal != nil {
 					if rcv, _, ok := methodCall(s); ok {
 						if fv := fieldOf(info, rcv); fv != nil && isSyncType(fv.Type()) {
-							switch cal.Name() {
-							case "Store", "LoadOrStore", "Swap", "CompareAndSwap", "Do", "Add":
-								n++
-								r.Fail(rule, fmt.Sprintf("%s#%s:%s/%d", fi.Name(), cal.Name(), fv.Name(), n), s.Pos(), "resolve records state in %s with %s before the constructor has succeeded: a failed construction is remembered and a retry does not behave like a first attempt", fv.Name(), cal.Name())
+							if o := ownerOfField(w, fv); o == "scope" || o == "provider" {
+								switch cal.Name() {
+								case "Store", "LoadOrStore", "Swap", "CompareAndSwap", "Do", "Add":
+									ins = append(ins, w.canonField(fv))
+								case "Delete", "LoadAndDelete", "CompareAndDelete":
+									del = append(del, w.canonField(fv))
+								}
 							}
 						}
 					}
@@ -449,9 +457,64 @@ func ruleResolveWritesNothing(w *World, r *Report, rule string) {
 			}
 			return true
 		})
-		if n == 0 {
-			r.OK(rule, fi.Name()+"#no-stores", fi.Decl.Pos(), true, "resolve stores nothing itself; caching happens only in setInstance after a successful construction")
+		return
+	}
+	info := fi.Pkg.TypesInfo // helpers are in the same package: one types.Info
+	may := Spec{Must: false, Global: globalPrefixes("ins:"), Stop: stop,
+		Node: func(n ast.Node, in Facts) (gen, kill []string) {
+			if _, ok := n.(*ast.DeferStmt); ok {
+				return
+			}
+			ins, del := effects(info, n, false)
+			for _, f := range ins {
+				gen = append(gen, "ins:"+f)
+			}
+			for _, f := range del {
+				kill = append(kill, "ins:"+f)
+			}
+			return
+		}}
+	must := Spec{Must: true, Global: globalPrefixes("ddel:"), Stop: stop,
+		Node: func(n ast.Node, in Facts) (gen, kill []string) {
+			if d, ok := n.(*ast.DeferStmt); ok {
+				var body ast.Node = d.Call
+				if lit, ok := unparen(d.Call.Fun).(*ast.FuncLit); ok {
+					body = lit.Body
+				}
+				_, del := effects(info, body, true)
+				for _, f := range del {
+					gen = append(gen, "ddel:"+f)
+				}
+			}
+			return
+		}}
+	fl := w.FlowOf(fi)
+	ms, ds := fl.Solve(may), fl.Solve(must)
+	n := 0
+	for _, ex := range fl.Exits() {
+		if ex.Ret == nil || len(ex.Ret.Results) == 0 {
+			continue
 		}
+		last := ex.Ret.Results[len(ex.Ret.Results)-1]
+		if isNilIdent(info, last) {
+			continue // a success exit
+		}
+		at, dat := ms.AtExit(ex), ds.AtExit(ex)
+		for _, k := range at.Keys() {
+			if !strings.HasPrefix(k, "ins:") {
+				continue
+			}
+			f := strings.TrimPrefix(k, "ins:")
+			if dat.Has("ddel:" + f) {
+				continue
+			}
+			n++
+			r.Fail(rule, fmt.Sprintf("%s#trace-on-failure:%s", fi.Name(), f), ex.Pos,
+				"resolve can return an error after recording state in %s (in resolve or one of its helpers) that is not retired on this path: the failed construction is remembered, and a retry in the same scope does not behave like a first attempt", f)
+		}
+	}
+	if n == 0 {
+		r.OK(rule, fi.Name()+"#no-trace-on-failure", fi.Decl.Pos(), true, "no error exit of resolve is reachable with scope or provider state recorded by resolve or its helpers and not retired; caching happens only in setInstance after a successful construction")
 	}
 }
 
